@@ -39,6 +39,13 @@ var c41Core = []string{
 	"x", " ", "<!--c-->", "<!DOCTYPE html>", "\x00",
 }
 
+// c41Deep is the sub-alphabet used one level deeper in the thorough tier.
+var c41Deep = []string{
+	"<a>", "<b>", "<p>", "<div>", "<table>", "<tr>", "<td>", "<caption>", "<select>", "<option>",
+	"<template>", "<form>", "<svg>", "<math>", "<mi>", "<foreignObject>", "<li>", "<button>", "<frameset>", "<title>",
+	"</a>", "</b>", "</p>", "</table>", "</template>", "</svg>", "</html>", "x", "<!--c-->",
+}
+
 // c41Extra is added for the shallower levels (and everywhere in thorough).
 var c41Extra = []string{
 	"<i>", "<dd>", "<style>", "<plaintext>", "<textarea>", "<xmp>", "<iframe>", "<noembed>", "<noframes>",
@@ -103,14 +110,17 @@ var c41Contexts = []c41Ctx{
 }
 
 type c41Case struct {
-	Level string `json:"alphabet"` // "core" or "full"
+	Level string `json:"alphabet"` // "core", "full" or "deep"
 	Items []int  `json:"items"`
 }
 
 func (x c41Case) input() string {
 	al := c41Core
-	if x.Level == "full" {
+	switch x.Level {
+	case "full":
 		al = c41Alphabet()
+	case "deep":
+		al = c41Deep
 	}
 	var sb strings.Builder
 	for _, i := range x.Items {
@@ -415,7 +425,7 @@ func TestVerif_C41(t *testing.T) {
 		fragFull, fragCore := 2, 3
 		deep := ""
 		if !c.Quick() {
-			deep = " thorough adds, in this order and as far as the deadline allows: fragment-full-3 (every concatenation of exactly 3 items of the full alphabet under every context) and document-core-5 (exactly 5 items of the core alphabet)."
+			deep = fmt.Sprintf(" thorough adds: fragment-full-3 (every concatenation of exactly 3 items of the full alphabet under every context), document-deep-5 and fragment-deep-4 (exactly 5 resp. 4 items of the %d-item sub-alphabet %q).", len(c41Deep), c41Deep)
 		}
 		c.Rule(fmt.Sprintf("document: Parse of every concatenation of <= %d items of the full alphabet (%d items: %q) and of every concatenation of %d..%d items of the core alphabet (the first %d items); scripting on, and also off when the input mentions noscript. "+
 			"fragment: ParseFragment with each of the %d contexts %q of every concatenation of <= %d items of the full alphabet and of %d..%d items of the core alphabet.%s "+
@@ -442,9 +452,12 @@ func TestVerif_C41(t *testing.T) {
 			vx.Enumerate(c, "fragment-full-3", vx.Opts{}, func(yield func(c41Case) bool) {
 				vx.Strings(idx(len(full)), 3, 3, func(s []int) bool { return yield(c41Case{"full", s}) })
 			}, func(w *vx.W, x c41Case) { c41Fragment(w, x.input(), c41Contexts) })
-			vx.Enumerate(c, "document-core-5", vx.Opts{}, func(yield func(c41Case) bool) {
-				vx.Strings(idx(len(c41Core)), 5, 5, func(s []int) bool { return yield(c41Case{"core", s}) })
+			vx.Enumerate(c, "document-deep-5", vx.Opts{}, func(yield func(c41Case) bool) {
+				vx.Strings(idx(len(c41Deep)), 5, 5, func(s []int) bool { return yield(c41Case{"deep", s}) })
 			}, func(w *vx.W, x c41Case) { c41Document(w, x.input()) })
+			vx.Enumerate(c, "fragment-deep-4", vx.Opts{}, func(yield func(c41Case) bool) {
+				vx.Strings(idx(len(c41Deep)), 4, 4, func(s []int) bool { return yield(c41Case{"deep", s}) })
+			}, func(w *vx.W, x c41Case) { c41Fragment(w, x.input(), c41Contexts) })
 		}
 	})
 }
